@@ -552,3 +552,54 @@ func runWFN(r *hx.Run, cfg hx.Config, rnd *hx.Rand) {
 		opUTF8(r, b)
 	}
 }
+
+// runEncodeAliasing: the bytes an encoder returns belong to the caller: a later
+// encoding must not change them, and scribbling over them must not change the
+// value they came from (nor what it encodes to next time).
+func runEncodeAliasing(r *hx.Run, cfg hx.Config, rnd *hx.Rand) {
+	type enc struct {
+		name string
+		f    func() ([]byte, error)
+	}
+	for i := 0; i < cfg.N(300, 20000) && !r.Stop(); i++ {
+		d1, d2 := randDigest(rnd), randDigest(rnd)
+		v1, v2 := randVersion(rnd), randVersion(rnd)
+		s1, s2 := claircore.Severity(rnd.Intn(6)), claircore.Severity(rnd.Intn(6))
+		a1, a2 := claircore.ArchOp(rnd.Intn(4)), claircore.ArchOp(rnd.Intn(4))
+		w1, w2 := randCPE(rnd), randCPE(rnd)
+		u1, u2 := claircore.Duration(randDur(rnd)), claircore.Duration(randDur(rnd))
+		pairs := [][2]enc{
+			{{"Digest", d1.MarshalText}, {"Digest", d2.MarshalText}},
+			{{"Version", v1.MarshalText}, {"Version", v2.MarshalText}},
+			{{"Severity", s1.MarshalText}, {"Severity", s2.MarshalText}},
+			{{"ArchOp", a1.MarshalText}, {"ArchOp", a2.MarshalText}},
+			{{"cpe.WFN", w1.MarshalText}, {"cpe.WFN", w2.MarshalText}},
+			{{"Duration", (&u1).MarshalText}, {"Duration", (&u2).MarshalText}},
+		}
+		for _, p := range pairs {
+			out := hx.Guard(func() string {
+				t1, err := p[0].f()
+				if err != nil {
+					return "ok"
+				}
+				keep := string(t1)
+				t2, _ := p[1].f()
+				if string(t1) != keep {
+					return fmt.Sprintf("the text %q returned by %s.MarshalText changed to %q when another value was marshalled (%q)", keep, p[0].name, t1, t2)
+				}
+				for k := range t1 {
+					t1[k] ^= 0x20
+				}
+				t3, _ := p[0].f()
+				if string(t3) != keep {
+					return fmt.Sprintf("%s.MarshalText gives %q after the bytes it returned before (%q) were overwritten", p[0].name, t3, keep)
+				}
+				return "ok"
+			})
+			r.Case("enc-alias "+p[0].name, true)
+			if out != "ok" {
+				failW(r, "", out)
+			}
+		}
+	}
+}
